@@ -24,7 +24,7 @@ def add_to(run):
             obs += fv.obs
     except Unsupported as e:
         run.bounded_notes.append(f"memory_map setters: outside the pyvc subset on this tree ({e}); the bounded validation clause decides")
-    # the constructors of the three bus signatures, for all parameter values
+    # the constructors of all six signature classes, for all parameter values
     try:
         from contracts import sig_init
         for f in sig_init.ALL:
@@ -33,7 +33,7 @@ def add_to(run):
             run.require(f"{fv.qualname}::accepts-only-valid-parameters", f"{fv.qualname}::no-other-member")
             obs += fv.obs
         run.require("wishbone.bus.Signature.__init__::features-iterated-exactly-once")
-        run.assumptions.append("signature constructors: In/Out, wiring.Signature.__init__, Feature() and Element.Access() are recording stubs; a feature "
+        run.assumptions.append("signature constructors: In/Out, wiring.Signature.__init__, Feature(), Element.Access(), FieldPort.Access(), Source.Trigger(), Shape.cast() and unsigned() are recording stubs (unsigned(w) stands for its width); a feature "
                                "iterable is abstract (which features it yields is an uninterpreted predicate, whether all convert a free Boolean)")
     except Unsupported as e:
         run.bounded_notes.append(f"signature constructors: outside the pyvc subset on this tree ({e}); the bounded member tables decide")
